@@ -331,7 +331,7 @@ let run_tracecc infile outfile =
                 | "C" -> [EvCampaign]
                 | "P" | "CC" -> [EvPropose (nat_of_int (int_of_string (List.hd g.g_args)))]
                 | "T" -> [EvTick; EvCampaign]
-                | "SR" -> [EvTick]
+                | "SR" | "K" -> [EvTick]
                 | "R" -> [EvRestart]
                 | "D" | "DD" -> [EvRecv (msg_of_tokens g.g_args)]
                 | "FP" | "FPD" -> (match g.g_args with _ :: _ :: _ :: p :: _ -> [EvPropose (nat_of_int (int_of_string p))] | _ -> failwith "bad FP")
